@@ -23,7 +23,7 @@ ASSUMPTIONS = [
     "for a refused cross-project operation only: error class, no foreign pair recorded, tables consistent and unchanged for pairs not named by the op",
 ]
 REQUIRED_LABELS = {
-    "quick": ["reconnect_after_disconnect", "list_overlap", "freed_slot_middle", "cross_project", "self_loop", "mixed_disconnect_list", "other_project_linked", "save_midway", "cross_project_mixed_request", "mixed_request_with_noop_pair", "modules_at_positions_above_256", "operand_list_with_disconnects_reused"],
+    "quick": ["reconnect_after_disconnect", "list_overlap", "freed_slot_middle", "cross_project", "self_loop", "mixed_disconnect_list", "other_project_linked", "save_midway", "cross_project_mixed_request", "mixed_request_with_noop_pair", "modules_at_positions_above_256", "operand_list_with_disconnects_reused", "project_object_dropped_by_caller", "fan_out_of_more_than_255"],
     "thorough": ["reconnect_after_disconnect", "list_overlap", "freed_slot_middle", "cross_project", "self_loop", "mixed_disconnect_list"],
 }
 
@@ -45,6 +45,7 @@ def plan(tier):
     n, per = (16, 60) if tier == "quick" else (16, 600)
     for i in range(n):
         descs.append({"kind": "random", "examples": per, "max_modules": 8 if tier == "quick" else 16, "max_ops": 30 if tier == "quick" else 50})
+    descs.append({"kind": "lifetime"})
     for i in range(2 if tier == "quick" else 8):
         descs.append({"kind": "random", "big": True, "examples": 25 if tier == "quick" else 150, "max_modules": 8, "max_ops": 20})
     return descs
@@ -236,6 +237,12 @@ def op_list(draw, max_modules=8, max_ops=30, with_save_load=False, big=False):
         weights = weights + ["save_load", "save_load", "save_load", "save"]
     idx = lambda: draw(st.sampled_from(valid))  # noqa: E731
     idxs = lambda lo=1, hi=4: draw(st.lists(st.sampled_from(valid), min_size=lo, max_size=min(hi, len(valid)), unique=True))  # noqa: E731
+    if big and base >= 255 and draw(st.booleans()):
+        # a fan-out of more than 255 links, with slots freed in its middle afterwards
+        src = valid[1]
+        ops.append(["fanout", src, 1, base + 1])
+        for _ in range(draw(st.integers(1, 3))):
+            ops.append(["rshift_dis", src, draw(st.integers(2, base - 1))])
     for _ in range(k):
         kind = draw(st.sampled_from(weights))
         if kind == "new":
@@ -362,6 +369,8 @@ def run_ops(ctx, case, prop="C07", on_save_load=None):
                 raise PropertyViolation(prop + ".save_changes_tables", "step %d: saving changed the link tables: %r -> %r" % (step, before, lm.tables(world.project)))
             labels.add("save_midway")
             continue
+        if op[0] == "fanout":
+            labels.add("fan_out_of_more_than_255")
         if op[0] == "reuse":
             labels.add("operand_list_reused")
             if any(d for _, d in op[3]):
@@ -389,6 +398,9 @@ def run_ops(ctx, case, prop="C07", on_save_load=None):
 
 def run_shard(ctx, desc):
     k = desc["kind"]
+    if k == "lifetime":
+        run_lifetime(ctx)
+        return
     if k == "dfs":
         firsts = [desc["first"]] if "first" in desc else list(range(*desc["first_range"]))
         run_dfs(ctx, desc["nodes"], desc["depth"], firsts)
@@ -409,8 +421,72 @@ def run_shard(ctx, desc):
         run_property(ctx, op_list(desc["max_modules"], desc["max_ops"], big=desc.get("big", False)), body, desc["examples"], tag="ops_big" if desc.get("big") else "ops")
 
 
+def run_lifetime(ctx):
+    """The program keeps only the modules (a helper built or loaded the project and returned its
+    modules): the link operators on them still work, on the project they belong to."""
+    import gc
+    from io import BytesIO
+
+    from rv.api import Pattern, Project, m, read_sunvox_file
+
+    def built(with_pattern):
+        p = Project()
+        mods = [p.new_module(cls) for cls in (m.Amplifier, m.Generator, m.MultiSynth, m.Echo)]
+        if with_pattern:
+            p.attach_pattern(Pattern(tracks=1, lines=1))
+        return mods
+
+    def loaded(with_pattern):
+        p = Project()
+        for cls in (m.Amplifier, m.Generator, m.MultiSynth, m.Echo):
+            p.new_module(cls)
+        if with_pattern:
+            p.attach_pattern(Pattern(tracks=1, lines=1))
+        return read_sunvox_file(BytesIO(p.read())).modules[1:]
+
+    for name, maker in (("built", built), ("loaded", loaded)):
+        for with_pattern in (False, True):
+            for collect in (False, True):
+                ctx.case()
+                rec = {"op": "lifetime", "how": name, "pattern": with_pattern, "gc": collect}
+                mods = maker(with_pattern)
+                if collect:
+                    gc.collect()
+                a, b, c, d = mods
+                E = set()
+                try:
+                    a >> b
+                    E.add((a.index, b.index))
+                    a >> [c, d]
+                    E |= {(a.index, c.index), (a.index, d.index)}
+                    d << [b, c]
+                    E |= {(b.index, d.index), (c.index, d.index)}
+                    a >> ~c
+                    E.discard((a.index, c.index))
+                    owner = a.parent
+                    ok = owner is not None and all(x.parent is owner for x in mods) and all(owner.modules[x.index] is x for x in mods)
+                    ctx.check(ok, "C07.lifetime.owner", "modules %s by a helper that dropped the project: they no longer all name one project that holds them" % name, recipe=rec)
+                    if ok:
+                        lm.check_consistency(owner, E, "C07")
+                except PropertyViolation as v:
+                    ctx.check(False, v.sub_oracle, "project dropped by the caller (%s): %s" % (name, v.detail), key=v.key, recipe=rec)
+                except Exception as e:  # noqa: BLE001
+                    ctx.check(False, "C07.lifetime.operators_fail", "modules %s by a helper that dropped the project: a link operator raised %s: %s" % (name, type(e).__name__, e), recipe=rec)
+                ctx.mark_nontrivial(rec)
+    ctx.label("project_object_dropped_by_caller")
+    ctx.sample({"op": "lifetime"})
+
+
 def replay(ctx, doc):
     r = doc["recipe"]
+    if r.get("op") == "lifetime":
+        from vlib.harness import Ctx
+
+        c2 = Ctx(ctx.prop, ctx.tier, ctx.seed, 0, 1, [])
+        run_lifetime(c2)
+        if c2.failures:
+            raise PropertyViolation(c2.failures[0]["sub_oracle"], c2.failures[0]["detail"], c2.failures[0]["key"])
+        return
     if "case" in r:
         run_ops(ctx, r["case"])
         return
